@@ -322,7 +322,8 @@ def main():
   rep.assumptions += ["np.power(v, e) on [0,1] is an oracle in the theorems (pw: zero at 0, range [0,1], monotone); the run instantiates it with "
                       "integer exponents and compares scheduler values to 2^-48 relative, exactly at the ends (0 before start, 1 from finish)",
                       "python-float vs float32 conversion of the factor follows TensorFlow's scalar conversion (float32 rounding of the double)"]
-  return rep.finish(vlib.TRUSTED_COMMON + ["models Quant/Noise.v, Quant/Fixed.v are hand-written; tie = comparison with the implementation on every generated case"])
+  return rep.finish(vlib.TRUSTED_COMMON + ["translators tools/translate/{schedgen,lingen}.py regenerate coq/gen/{SchedGen,LinGen}.v (scheduler state machine; the mixture returned by quantized_linear)",
+                                          "models Quant/Noise.v, Quant/Fixed.v are hand-written; tie = comparison with the implementation on every generated case"])
 
 
 if __name__ == "__main__":
